@@ -223,6 +223,51 @@ def run(ctx: core.Ctx):
         "Python float(text) is the correctly rounded double of the decimal literal (CPython strtod); checked on every transmitted text",
         "values are finite ints/floats with |v| <= 1e4 (the property's domain); the Lean theorems need no bound",
     ]
+    # ambient state and other exact number types: what is written must not depend on the arithmetic context of the thread that writes
+    # (decimal rounding mode / precision set by the application), and a number given as Decimal or Fraction is the number it denotes
+    import decimal
+    from ..realobj import make as _make
+    from decimal import Decimal
+    n_amb = 0
+    saved = decimal.getcontext().copy()
+    try:
+        for ctx_name, setter in (("default", lambda c: None), ("ROUND_DOWN", lambda c: setattr(c, "rounding", decimal.ROUND_DOWN)),
+                                 ("ROUND_CEILING", lambda c: setattr(c, "rounding", decimal.ROUND_CEILING)), ("prec=3", lambda c: setattr(c, "prec", 3)),
+                                 ("ROUND_UP,prec=2", lambda c: (setattr(c, "rounding", decimal.ROUND_UP), setattr(c, "prec", 2)))):
+            decimal.setcontext(saved.copy())
+            setter(decimal.getcontext())
+            done = set()
+            for py, attr, fname in fns:
+                if fname in done:
+                    continue
+                done.add(fname)
+                step, d = SPEC[fname]
+                obj, conn = _make(py)
+                vals = [-30.3, 4, 101.55, 1537, 16.5, -0.2, 0.24, 87.55, -80.5, 7.49, 12.5, 2.5, 531, 1005.0,
+                        Decimal("16.5"), Decimal("16.50"), Fraction(33, 2), Decimal("-30.3"), Fraction(-61, 2), Decimal("101.55"), Fraction(1537), Decimal("2.50")]
+                vals += [round(ctx.rng.uniform(-80, 110), ctx.rng.choice([0, 1, 2, 3])) for _ in range(40 if not thorough else 400)]
+                for v in vals:
+                    n0 = len(conn.sent)
+                    try:
+                        setattr(obj, attr, v)
+                    except Exception as e:  # noqa: BLE001
+                        if isinstance(v, (int, float)):
+                            ctx.violation(f"{py}.{attr} = {v!r} under decimal context {ctx_name}: raised {type(e).__name__} for a valid number",
+                                          {"path": "ambient", "class": py, "attr": attr, "value": repr(v), "decimal_context": ctx_name}, {"kind": "raised", "function": fname})
+                        continue
+                    sent = conn.sent[n0:]
+                    n_amb += 1
+                    ctx.case(("ambient", ctx_name, fname, repr(v)))
+                    if len(sent) != 1 or sent[0][0] != "put" or not isinstance(sent[0][3], str):
+                        continue
+                    reason = oracle(fname, v, sent[0][3])
+                    if reason:
+                        ctx.violation(f"{py}.{attr} = {v!r} ({type(v).__name__}) under decimal context {ctx_name}: PUT carries {sent[0][3]!r}: {reason}",
+                                      {"path": "ambient", "class": py, "attr": attr, "value": repr(v), "decimal_context": ctx_name}, {"kind": reason.split(":")[0], "function": fname})
+                        break
+    finally:
+        decimal.setcontext(saved)
+    ctx.cov["ambient_context_assignments"] = n_amb
     return ctx.finish()
 
 
